@@ -20,7 +20,7 @@ RULE = ("(base, ref1, ref2): absolute base URL with authority (optional userinfo
         "segments incl. '.', '..', '' and trailing slash) x references that are path-relative / path-absolute "
         "(0-7 segments over {., .., '', a, b, c;x, d:e, ..., .a, b., x=1, @, e-acute}; 1 in 12 is a run of '..' that reaches the root followed by an empty/dot tail), query-only, fragment-only, "
         "empty, or absolute URLs; ref2 is applied to the result (chaining); each reference is passed as str, as URL(text) "
-        "or as a URL object assembled with from_parts; 15 % of the bases are rebuilt with URL.from_parts(path_parts without the leading '');  thorough adds every reference path of <= 4 segments over {., .., '', a, b} x 7 base shapes. "
+        "or as a URL object assembled with from_parts; 15 % of the bases are rebuilt with URL.from_parts(path_parts without the leading '');  thorough adds every reference path of <= 4 segments over {., .., '', a, b} x 7 base shapes and of 5 segments over {., .., '', a} x 3 base shapes. "
         "non-trivial = ref1 or ref2 has a '.', '..' or empty path segment, or is query-/fragment-only; "
         "distinct = distinct (base, ref1, ref2) hash")
 ASSUMPTIONS = ["texts are free of '%', of ';' '+' in queries, of IPv6/IDNA hosts (quoting/IDNA belong to C06)",
@@ -163,7 +163,7 @@ EXH_BASES = ['http://a', 'http://a/', 'http://a/b', 'http://a/b/', 'http://u:p@h
 EXH_SEGS = ['.', '..', '', 'a', 'b']
 
 
-def _exhaustive():
+def _exhaustive(with_len5=True):
     """every reference path of <= 4 segments over EXH_SEGS, relative and absolute, x EXH_BASES;
     ref2 cycles through a few fixed references."""
     r2s = ['', '..', './x', '/y/../z', '?n', '#m', '../../..', 'g/']
@@ -182,6 +182,16 @@ def _exhaustive():
                     k += 1
                     yield {"base": b, "ref1": p, "as_url1": k % 3, "ref2": r2s[k % len(r2s)],
                            "as_url2": (k // 3) % 3, "unrooted": k % 5 == 0}
+    # length 5 over the four structural symbols, three base shapes (empty path, directory, empty segments)
+    for segs in (itertools.product(['.', '..', '', 'a'], repeat=5) if with_len5 else ()):
+        for lead in ('', '/'):
+            p = lead + '/'.join(segs)
+            if p.startswith('//') or (lead == '' and p.startswith('/')):
+                continue
+            for b in ('http://a', 'http://a/b/', 'http://a//b//'):
+                k += 1
+                yield {"base": b, "ref1": p, "as_url1": k % 3, "ref2": r2s[k % len(r2s)],
+                       "as_url2": (k // 3) % 3, "unrooted": k % 5 == 0}
 
 
 def generate(rng, tier, n):
@@ -197,7 +207,7 @@ def search(rng, tier, n, broken):
     """After a broken tie (model/implementation disagreement, a proof obligation over regenerated data
     or the source translation failing): the exhaustive small-scope sweep, each reference also against
     the from_parts-built twin of the base, then random cases."""
-    for c in _exhaustive():
+    for c in _exhaustive(with_len5=False):
         yield c
         if not c["unrooted"]:
             yield dict(c, unrooted=True)
